@@ -63,17 +63,16 @@ ASSUMPTIONS = [
 
 QUICK_ALPHA = '019AF'
 BOUNDS = {
-    'quick': 'CMDRequest, wide wires (12/32/12): every stream of <= 2 commands with 1-2 digits from {0,1,9,A,F} (120 commands) and every '
-             'stream of <= 3 commands with 1-2 digits from {0,9,F} (48 commands), every producer timing; narrow wires (1/2/1): streams of '
-             'unbounded length over 1-2 digits from {0,9,F} (closed graph); 10 fixed long commands (up to 9 digits) each followed by <= 1 '
-             'one-digit command. CMDResponse: vin in {0,1,0xA5,0xFEDCBA98,0xFFFFFFFF,'
-             '0x0F0F0F0F} x size 1..8, two consecutive responses (second over the whole grid), every ready pacing.',
-    'thorough': 'CMDRequest, wide wires: every stream of <= 3 commands with 1-2 digits from {0,1,9,A,F}; <= 4 commands with 1 digit from '
-                '{0,1,9,A,F}; every command with 1-3 digits from all 16 followed by <= 1 command with 1 digit from {0,9,F}; every command '
-                'with 1 digit from {0,9,F} followed by <= 1 command with 1-2 digits from all 16; narrow wires: unbounded streams over '
-                '{0,1,9,A,F} x 1-2 digits (1/2/1 bits) and {0,9,F} x 1-2 digits (2/4/2 bits); the 10 fixed long commands. CMDResponse: 12 vin values x size 1..8, two '
-                'consecutive responses. Closed loop CMDResponse -> UARTSerializer -> UARTDeserializer -> CMDRequest, 6 values x 4 sizes x '
-                '8 start phases.',
+    'quick': 'CMDRequest, wide wires (12/32/12): every stream of <= 3 commands with 1-2 digits from {0,1,9,A,F} (120 commands), every '
+             'producer timing; 10 fixed long commands (up to 9 digits) each followed by <= 1 one-digit command; narrow wires (1/2/1): '
+             'streams of unbounded length over 1-2 digits from {0,9,F} (closed graph). CMDResponse: vin in {0,1,0xA5,0xFEDCBA98,'
+             '0xFFFFFFFF,0x0F0F0F0F} x size 1..8, two consecutive responses (second over the whole grid), every ready pacing.',
+    'thorough': 'CMDRequest, wide wires: every stream of <= 3 commands with 1-2 digits from {0,1,9,A,F}; <= 4 commands with 1-2 digits from '
+                '{0,9,F} or 1 digit from {0,1,9,A,F}; <= 5 commands with 1 digit from {0,9,F}; every command with 1-3 digits from all 16 '
+                'followed by <= 1 command with 1-2 digits from {0,9,F}; every command with 1 digit from {0,9,F} followed by <= 1 command '
+                'with 1-3 digits from all 16; the 10 fixed long commands; narrow wires (1/2/1 and 2/4/2 bits): unbounded streams over '
+                '{0,1,9,A,F} x 1-2 digits. CMDResponse: 12 vin values x size 1..8, two consecutive responses. Closed loop CMDResponse -> '
+                'UARTSerializer -> UARTDeserializer -> CMDRequest (4 clocks/bit), 6 values x 4 sizes x 8 start phases.',
 }
 
 HEX = ref.HEX
@@ -100,26 +99,26 @@ def _req(cfg, alpha, maxdig, ncmd, first=None, alpha2=None, maxdig2=None):
 def shards(tier):
     out = []
     T = tier == 'thorough'
+    for cmd in ref.all_commands(QUICK_ALPHA, 2):
+        out.append(_req('wide', QUICK_ALPHA, 2, 3, first=cmd))
     if not T:
-        for cmd in ref.all_commands(QUICK_ALPHA, 2):
-            out.append(_req('wide', QUICK_ALPHA, 2, 2, first=cmd))
-        for cmd in ref.all_commands('09F', 2):
-            out.append(_req('wide', '09F', 2, 3, first=cmd))
         out.append(_req('narrow', '09F', 2, None))
     else:
-        for cmd in ref.all_commands(QUICK_ALPHA, 2):
-            out.append(_req('wide', QUICK_ALPHA, 2, 3, first=cmd))
+        for cmd in ref.all_commands('09F', 2):
+            out.append(_req('wide', '09F', 2, 4, first=cmd))
         for cmd in ref.all_commands(QUICK_ALPHA, 1):
             out.append(_req('wide', QUICK_ALPHA, 1, 4, first=cmd))
+        for cmd in ref.all_commands('09F', 1):
+            out.append(_req('wide', '09F', 1, 5, first=cmd))
         # long numbers: first command = 1-3 digits from all 16 (shard = kind + first digit), then <= 1 small command ...
         for kind in 'IVOK':
             for d0 in HEX:
-                out.append(_req('wide', HEX, 3, 2, first=('' if kind == 'V' else kind) + d0, alpha2='09F', maxdig2=1))
-        # ... and a small first command followed by any command with 1-2 digits from all 16
+                out.append(_req('wide', HEX, 3, 2, first=('' if kind == 'V' else kind) + d0, alpha2='09F', maxdig2=2))
+        # ... and a small first command followed by any command with 1-3 digits from all 16
         for cmd in ref.all_commands('09F', 1):
-            out.append(_req('wide', '09F', 1, 2, first=cmd, alpha2=HEX, maxdig2=2))
+            out.append(_req('wide', '09F', 1, 2, first=cmd, alpha2=HEX, maxdig2=3))
         out.append(_req('narrow', QUICK_ALPHA, 2, None))
-        out.append(_req('narrow2', '09F', 2, None))
+        out.append(_req('narrow2', QUICK_ALPHA, 2, None))
     # a few long numbers (up to 9 digits: one more than the 32-bit value wire holds), each followed by <= 1 small command
     for cmd in LONG_COMMANDS:
         out.append(_req('wide', '09F', 1, 2, first=cmd))
@@ -295,7 +294,7 @@ def run_req(d):
         c.env, c.mon, c.busy, c.quiet = e
 
     ex = core.Explorer(mk, lambda c: req_choices(d, c.env), check, step=req_step, extra_state=get_extra, set_extra=set_extra,
-                       max_states=2000000 if d['ncmd'] is None else 3000000, validate_every=997, monitor_widths=False)
+                       max_states=2000000 if d['ncmd'] is None else 3000000, validate_every=2503, monitor_widths=False)
     ex.run()
     res = {'configs': 1, 'states': ex.states, 'transitions': ex.transitions, 'traces_validated_against_impl': ex.validated,
            'capped': ex.capped, 'closed_graphs': 1 if ex.closed else 0, 'evaluations': stats['issued'],
